@@ -5,7 +5,9 @@ only cold, isothermal, zero contribution, duplicate names, utilities that are ne
 value-with-unit objects) with one quantity a z3 real over its whole range, crossed with solver-chosen option vectors.
 On every feasible path: no exception escapes (an exception on a feasible path is a counterexample, replayed on the
 real code), every reported number is finite, record names are unique with one direct-integration record per zone,
-every reported temperature lies inside the envelope of the input temperatures widened by the contributions.
+every reported temperature lies inside the envelope of the input temperatures widened by the contributions, and a
+second (third) call with the SAME input object -- a dictionary or a validated model, with or without an explicit zone tree --
+returns an identical result.
 Schema validity and JSON serialisability are checked on the concrete replay of path models (real pydantic).
 """
 from __future__ import annotations
@@ -122,9 +124,18 @@ def body(ctx, case):
     spec, temps, maxdt = build(ctx, case)
     allowed = case.get("opts") or list(range(len(OPTION_VECTORS)))
     spec["options"] = dict(OPTION_VECTORS[allowed[ctx.choice("opt", len(allowed))]])
-    data = service.make_input(ctx, spec, "dict")
+    # the request as a plain dictionary or as a validated model (solver's / case's choice): the SAME object is passed again below
+    forms = case.get("forms") or ["dict"]
+    form = forms[ctx.choice("form", len(forms))] if len(forms) > 1 else forms[0]
+    data = service.make_input(ctx, spec, form)
     res = service.call_service(ctx, data)
     view = service.result_view(res)
+    # "identical when the call is repeated": same input object, second and third call (an exception here is a counterexample like any other)
+    for k in range(case.get("repeats", 1)):
+        again = service.result_view(service.call_service(ctx, data))
+        ctx.require(service.same(again["targets"], view["targets"], 1e-9) and sorted((again.get("graphs") or {}).keys()) == sorted((view.get("graphs") or {}).keys()),
+                    f"the result is identical when the call is repeated with the same input object (call {k + 2}, input as {form})")
+    ctx.tag(f"repeated as {form}")
     bad = [p for p, v in numbers(view) if isinstance(v, float) and not math.isfinite(v)]
     ctx.note("nonfinite", len(bad))
     ctx.require(not bad, "every reported number is finite")
@@ -168,17 +179,17 @@ def cases(tier, seed):
     if tier == "quick":
         return [{"shape": "single_hot", "opts": [0, 1, 4]}, {"shape": "single_cold", "opts": [2, 3]}, {"shape": "isothermal_pair", "opts": [0]},
                 {"shape": "duplicate_names", "opts": [3]}, {"shape": "unneeded_utilities", "opts": [1]}, {"shape": "value_with_unit", "opts": [1]}, {"shape": "mixed_spelling_utilities", "opts": [1]},
-                {"shape": "tree_with_empty_operation", "opts": [3, 4], "xrange": (170, 174)}]
-    return [{"shape": s} if s != "tree_with_empty_operation" else {"shape": s, "xrange": (146, 200)} for s in SHAPES]
+                {"shape": "tree_with_empty_operation", "opts": [3, 4], "xrange": (170, 174), "forms": ["model"], "repeats": 2}]
+    return [{"shape": s} if s != "tree_with_empty_operation" else {"shape": s, "xrange": (146, 200), "forms": ["dict", "model"], "repeats": 2} for s in SHAPES]
 
 
 FAMILIES = [
     Family(name="shapes", cases=cases, body=body, functions=FUNCS, files=FILES,
            bounds="degenerate-but-legal problems (single hot / single cold / only hot / only cold in two zones / isothermal + normal / zero contributions / duplicate names / explicit zone tree with an empty unit operation / "
                   "five explicit utilities of which three are never needed / value-with-unit numbers) with one stream temperature a z3 real in [0,500], crossed with "
-                  "option vectors chosen by the solver (quick: 1-3 per shape, thorough: all 5) (balanced curves on/off, vertical GCC + assisted transfer, unit-operation targeting, indirect process targeting)",
+                  "option vectors chosen by the solver (quick: 1-3 per shape, thorough: all 5) (balanced curves on/off, vertical GCC + assisted transfer, unit-operation targeting, indirect process targeting); every call repeated once (tree shape: twice, request given as validated model) with the same input object",
            assumptions=["floats modelled as exact reals", "pydantic models are pass-through stand-ins in symbolic runs; schema validity and JSON round trip are checked on the concrete replay of path models",
                         "redundant-point removal in graph building is an identity stub during symbolic runs", "breakpoints equal or >= 0.25 K apart",
                         "area / heat-pump / turbine / exergy options are excluded (scipy optimisers, CoolProp)"],
-           shim_modules=None, snap="micro", split_paths=6, validate_every=3, reach=[], case_cap_s=3000),
+           shim_modules=None, snap="micro", split_paths=6, validate_every=3, reach=["repeated as dict", "repeated as model"], case_cap_s=3000),
 ]
